@@ -1,11 +1,39 @@
 //! C09 scenario: a coroutine is cancelled at a random point while it is in (or about to enter) one of
 //! the cancellable blocking calls; other parties use the same primitive concurrently.
-//! Oracles: the target's join returns Err (Cancel) and never hangs; every value owned by its stack is
-//! dropped exactly once; locks it held are released and NOT poisoned; a wake-up / hand-off / permit /
-//! notification that raced with the cancel is passed on (the other waiters all finish); a coroutine that
-//! was not cancelled never observes a cancellation.
+//!
+//! MAYV_PRIM = park | sleep | mutex | sem | cond | rw | chan (mpsc) | mpmc | join | flag | select |
+//!             read | accept | connect | mix (one of them, seeded)
+//! MAYV_TIMED=1: the target uses the timed flavour of the call where one exists (park_timeout, wait_timeout,
+//!             recv_timeout ...): the cancel then also races with the timer of the call.
+//! MAYV_OTHERS = number of other parties (default 2: a coroutine and a thread), MAYV_ROUNDS their rounds.
+//! MAYV_BY=0: no bystander / heir coroutines.
+//! MAYV_SELARMS=timed (default): the arms of the select variant are sleep / SyncFlag::wait_timeout / Semphore::wait_timeout;
+//!             =recv: two arms block in mpsc::Receiver::recv (REPLAY of a finding: the cancelled select never ends, see
+//!             props/C09.json; not part of the checked variants).
+//! MAYV_SELOTHERS=mutex: in the select variant the other parties hold a Mutex guard across a yield (REPLAY of finding
+//!             F33b: spurious poisoning while the cancelled select owner is suspended inside its unwinding).
+//!
+//! The canceller (main) waits a seeded virtual time and a seeded number of hook points, then calls cancel().
+//!
+//! Oracles (all on the implementation):
+//!  * stop: the target's join returns Err whose payload is not a message (the Cancel error) and never hangs (HANG
+//!    detector of the harness); the target never completes another round after its cancellation point: it does
+//!    not finish normally;
+//!  * clean up: every value owned by the target's stack (locals, a vector, a value created per round, values
+//!    captured by select arms) is dropped exactly once; the locks it used are released (try_lock / try_write
+//!    succeed at the end) and NOT poisoned; the socket / listener it owned is closed (the peer reads end of
+//!    stream / a later connect is refused);
+//!  * forward: a wake-up / hand-off / permit / notification / message that raced with the cancel is passed on:
+//!    the other parties all finish their rounds; mutual exclusion holds throughout (occupancy counters); a
+//!    message sent to the cancelled receiver is not lost: sent = received by the target + still receivable;
+//!  * no spurious cancel: a coroutine that was not cancelled never observes a cancellation - the other parties,
+//!    a BYSTANDER coroutine that runs park_timeout / sleep / wait_timeout / select! all along, and an HEIR
+//!    coroutine spawned after the target has died (it gets the pooled stack of the target: finding F30) must
+//!    all return normally from every call.
 use mayv::*;
-use std::sync::atomic::{AtomicUsize, Ordering};
+use std::io::{Read, Write};
+use std::os::unix::io::AsRawFd;
+use std::sync::atomic::{AtomicBool, AtomicUsize, Ordering};
 use std::sync::Arc;
 use std::time::Duration;
 
@@ -16,8 +44,18 @@ fn envn(k: &str, d: u64) -> u64 {
     std::env::var(k).ok().and_then(|s| s.parse().ok()).unwrap_or(d)
 }
 
+extern "C" {
+    fn listen(fd: i32, backlog: i32) -> i32;
+}
+
 static DROPS: AtomicUsize = AtomicUsize::new(0);
 static MADE: AtomicUsize = AtomicUsize::new(0);
+static TWICE: AtomicUsize = AtomicUsize::new(0);
+/// messages the target received (chan / mpmc / select variants)
+static TGOT: AtomicUsize = AtomicUsize::new(0);
+/// rounds the target completed
+static TROUNDS: AtomicUsize = AtomicUsize::new(0);
+
 struct Occ(Arc<AtomicUsize>);
 impl Occ {
     fn enter(a: &Arc<AtomicUsize>, what: &str) -> Occ {
@@ -32,16 +70,47 @@ impl Drop for Occ {
         self.0.fetch_sub(1, Ordering::SeqCst);
     }
 }
-struct Owned(#[allow(dead_code)] u32);
+/// a value owned by the target's stack: counts creation and drop, detects a second drop
+struct Owned(#[allow(dead_code)] u32, AtomicBool);
 impl Owned {
     fn new(v: u32) -> Self {
         MADE.fetch_add(1, Ordering::SeqCst);
-        Owned(v)
+        Owned(v, AtomicBool::new(false))
     }
 }
 impl Drop for Owned {
     fn drop(&mut self) {
+        if self.1.swap(true, Ordering::SeqCst) {
+            TWICE.fetch_add(1, Ordering::SeqCst);
+        }
         DROPS.fetch_add(1, Ordering::SeqCst);
+    }
+}
+
+const PRIMS: [&str; 14] = ["mutex", "sem", "cond", "rw", "chan", "mpmc", "park", "sleep", "join", "flag", "select", "read", "accept", "connect"];
+
+/// the calls of a coroutine nobody cancels: every one of them must return normally
+fn calm_calls(who: &'static str, rounds: u64, flag: &may::sync::SyncFlag) {
+    let c = mayv::ctx();
+    for i in 0..rounds {
+        match i % 4 {
+            0 => may::coroutine::sleep(Duration::from_micros(300)),
+            1 => may::coroutine::park_timeout(Duration::from_micros(200)),
+            2 => {
+                flag.wait_timeout(Duration::from_micros(250));
+            }
+            _ => {
+                let (tx, rx) = may::sync::mpsc::channel::<u32>();
+                let t = may::select!(
+                    _ = may::coroutine::sleep(Duration::from_micros(150)) => {},
+                    _ = rx.recv() => {}
+                );
+                drop(tx);
+                if t > 1 {
+                    c.fail(format!("{who}: select! returned token {t}"));
+                }
+            }
+        }
     }
 }
 
@@ -49,43 +118,64 @@ fn main() {
     let cfg = Config::from_env();
     let prim = envs("MAYV_PRIM", "mix");
     let others = envn("MAYV_OTHERS", 2) as usize;
+    let timed = envn("MAYV_TIMED", 0) == 1;
+    let with_by = envn("MAYV_BY", 1) == 1;
+    let selarms = envs("MAYV_SELARMS", "timed");
+    let sel_mutex = envs("MAYV_SELOTHERS", "read") == "mutex";
     run(cfg, move |ctx| {
-        let prims = ["mutex", "sem", "cond", "rw", "chan", "mpmc", "park", "sleep", "join", "flag"];
-        let prim: &'static str = if prim == "mix" { prims[(ctx.rand() % prims.len() as u64) as usize] } else { prims.iter().copied().find(|p| *p == prim).expect("prim") };
+        let prim: &'static str = if prim == "mix" { PRIMS[(ctx.rand() % PRIMS.len() as u64) as usize] } else { PRIMS.iter().copied().find(|p| *p == prim).expect("MAYV_PRIM") };
         let mx = Arc::new(may::sync::Mutex::new(0u32));
         let rw = Arc::new(may::sync::RwLock::new(0u32));
         let sem = Arc::new(may::sync::Semphore::new(0));
         let cv = Arc::new(may::sync::Condvar::new());
         let flag = Arc::new(may::sync::SyncFlag::new());
         let (tx, rx) = may::sync::mpsc::channel::<u32>();
+        let (tx2, rx2) = may::sync::mpsc::channel::<u32>();
         let (mtx, mrx) = may::sync::mpmc::channel::<u32>();
         let occupancy = Arc::new(AtomicUsize::new(0));
         let finished = Arc::new(AtomicUsize::new(0));
+        let ogot = Arc::new(AtomicUsize::new(0));
+        let dt = Duration::from_millis(3);
+
+        // sockets of the I/O variants
+        let (sa, sb) = may::os::unix::net::UnixStream::pair().expect("pair");
+        let lst = may::net::TcpListener::bind("127.0.0.1:0").expect("bind");
+        let laddr = lst.local_addr().unwrap();
+        // a listener that never answers: backlog 0 holds one connection, further SYNs are dropped
+        let deadl = std::net::TcpListener::bind("127.0.0.1:0").expect("bind");
+        let daddr = deadl.local_addr().unwrap();
+        let mut fill = vec![];
+        if prim == "connect" {
+            unsafe { listen(deadl.as_raw_fd(), 0) };
+            for _ in 0..2 {
+                if let Ok(s) = std::net::TcpStream::connect_timeout(&daddr, Duration::from_millis(25)) {
+                    fill.push(s);
+                }
+            }
+        }
 
         // the other parties: each does `rounds` operations on the same primitive and must always finish
         let mut joins: Vec<Box<dyn FnOnce()>> = vec![];
         let rounds = envn("MAYV_ROUNDS", 2);
         for o in 0..others {
-            let (mx, rw, sem, cv, occ, fin, mrx2) = (mx.clone(), rw.clone(), sem.clone(), cv.clone(), occupancy.clone(), finished.clone(), mrx.clone());
+            let (mx, rw, sem, cv, occ, fin, mrx2, og) = (mx.clone(), rw.clone(), sem.clone(), cv.clone(), occupancy.clone(), finished.clone(), mrx.clone(), ogot.clone());
             let body = move || {
                 let c = mayv::ctx();
                 for _ in 0..rounds {
                     match prim {
-                        "mutex" | "cond" | "join" | "park" | "sleep" | "flag" => {
-                            let mut g = match mx.lock() {
+                        // the select variant suspends the target in the middle of its unwinding (Cqueue::finish waits for the
+                        // arms): a Mutex guard that another coroutine drops meanwhile on that worker is poisoned (finding F33b of
+                        // C13: thread::panicking() is per thread).  The others use read guards (no poison flag) unless the
+                        // replay switch MAYV_SELOTHERS=mutex is set.
+                        "select" if !sel_mutex => {
+                            let g = match rw.read() {
                                 Ok(g) => g,
                                 Err(_) => {
-                                    c.fail("mutex poisoned by a cancellation".into());
+                                    c.fail("rwlock poisoned by a cancellation".into());
                                     return;
                                 }
                             };
-                            let o = Occ::enter(&occ, "mutex");
-                            *g += 1;
                             may::coroutine::yield_now();
-                            drop(o);
-                            if prim == "cond" {
-                                cv.notify_one();
-                            }
                             drop(g);
                         }
                         "rw" => {
@@ -106,9 +196,27 @@ fn main() {
                             sem.post();
                         }
                         "mpmc" => {
-                            let _ = mrx2.recv();
+                            if mrx2.recv().is_ok() {
+                                og.fetch_add(1, Ordering::SeqCst);
+                            }
                         }
-                        _ => {}
+                        _ => {
+                            let mut g = match mx.lock() {
+                                Ok(g) => g,
+                                Err(_) => {
+                                    c.fail("mutex poisoned by a cancellation".into());
+                                    return;
+                                }
+                            };
+                            let o = Occ::enter(&occ, "mutex");
+                            *g += 1;
+                            may::coroutine::yield_now();
+                            drop(o);
+                            if prim == "cond" {
+                                cv.notify_one();
+                            }
+                            drop(g);
+                        }
                     }
                 }
                 fin.fetch_add(1, Ordering::SeqCst);
@@ -125,15 +233,38 @@ fn main() {
                 joins.push(Box::new(move || mayv::ctx().join(h)));
             }
         }
+        // the bystander: blocking calls of its own, all along
+        if with_by {
+            let f2 = flag.clone();
+            let h = unsafe { may::coroutine::Builder::new().name("bystander".into()).spawn(move || calm_calls("bystander", 8, &f2)).unwrap() };
+            joins.push(Box::new(move || {
+                if h.join().is_err() {
+                    mayv::ctx().fail("the bystander coroutine, which nobody cancelled, was unwound (observed a cancellation)".into());
+                }
+            }));
+        }
 
         // the target
         let (mx2, rw2, sem2, cv2, flag2, occ2) = (mx.clone(), rw.clone(), sem.clone(), cv.clone(), flag.clone(), occupancy.clone());
         let reached = Arc::new(AtomicUsize::new(0));
         let reached2 = reached.clone();
+        let closed = Arc::new(AtomicBool::new(false));
+        let closed2 = closed.clone();
+        struct Closed(Arc<AtomicBool>);
+        impl Drop for Closed {
+            fn drop(&mut self) {
+                self.0.store(true, Ordering::SeqCst);
+            }
+        }
+        let mrx_t = mrx.clone();
         let target = unsafe {
             may::coroutine::Builder::new().name("target".into()).spawn(move || {
                 let _a = Owned::new(1);
                 let _b = vec![Owned::new(2), Owned::new(3)];
+                // what the I/O variants own: dropped (closed) by the unwind
+                let _cl = Closed(closed2);
+                let mut sb = sb;
+                let lst = lst;
                 reached2.store(1, Ordering::SeqCst);
                 loop {
                     let _c = Owned::new(4);
@@ -155,22 +286,36 @@ fn main() {
                             drop(g);
                         }
                         "sem" => {
-                            sem2.wait();
-                            sem2.post();
+                            let ok = if timed { sem2.wait_timeout(dt) } else { sem2.wait(); true };
+                            if ok {
+                                sem2.post();
+                            }
                         }
                         "cond" => {
                             let g = mx2.lock().unwrap();
-                            let g = cv2.wait(g).unwrap();
+                            let g = if timed { cv2.wait_timeout(g, dt).unwrap().0 } else { cv2.wait(g).unwrap() };
                             drop(g);
                         }
                         "chan" => {
-                            let _ = rx.recv();
+                            let r = if timed { rx.recv_timeout(dt).ok() } else { rx.recv().ok() };
+                            if r.is_some() {
+                                TGOT.fetch_add(1, Ordering::SeqCst);
+                            }
                         }
                         "mpmc" => {
-                            let _ = mrx.recv();
+                            let r = if timed { mrx_t.recv_timeout(dt).ok() } else { mrx_t.recv().ok() };
+                            if r.is_some() {
+                                TGOT.fetch_add(1, Ordering::SeqCst);
+                            }
                         }
-                        "park" => may::coroutine::park(),
-                        "sleep" => may::coroutine::sleep(Duration::from_millis(3)),
+                        "park" => {
+                            if timed {
+                                may::coroutine::park_timeout(dt)
+                            } else {
+                                may::coroutine::park()
+                            }
+                        }
+                        "sleep" => may::coroutine::sleep(dt),
                         "flag" => {
                             flag2.wait_timeout(Duration::from_millis(2));
                         }
@@ -178,8 +323,55 @@ fn main() {
                             let h = may::coroutine::spawn(|| may::coroutine::sleep(Duration::from_millis(2)));
                             let _ = h.join();
                         }
+                        "select" => {
+                            // the arms own values too: whatever happens to the select they are dropped once
+                            let (v1, v2) = (Owned::new(5), Owned::new(6));
+                            if selarms == "recv" {
+                                // arms blocked in mpsc::Receiver::recv: see the finding in props/C09.json (replay only)
+                                may::select!(
+                                    r = rx.recv() => { let _v = &v1; if r.is_ok() { TGOT.fetch_add(1, Ordering::SeqCst); } },
+                                    r = rx2.recv() => { let _v = &v2; if r.is_ok() { TGOT.fetch_add(1, Ordering::SeqCst); } },
+                                    _ = may::coroutine::sleep(Duration::from_millis(4)) => {}
+                                );
+                            } else {
+                                may::select!(
+                                    _ = may::coroutine::sleep(Duration::from_millis(2)) => { let _v = &v1; },
+                                    _ = flag2.wait_timeout(Duration::from_millis(3)) => { let _v = &v2; },
+                                    _ = sem2.wait_timeout(Duration::from_millis(4)) => {}
+                                );
+                            }
+                        }
+                        "read" => {
+                            let mut buf = [0u8; 16];
+                            if timed {
+                                sb.set_read_timeout(Some(dt)).unwrap();
+                            }
+                            match sb.read(&mut buf) {
+                                Ok(n) => {
+                                    TGOT.fetch_add(n, Ordering::SeqCst);
+                                }
+                                Err(e) if matches!(e.kind(), std::io::ErrorKind::TimedOut | std::io::ErrorKind::WouldBlock) && timed => {}
+                                Err(e) => mayv::ctx().fail(format!("target: read failed: {e}")),
+                            }
+                        }
+                        "accept" => match lst.accept() {
+                            Ok((s, _)) => {
+                                TGOT.fetch_add(1, Ordering::SeqCst);
+                                drop(s);
+                            }
+                            Err(e) => mayv::ctx().fail(format!("target: accept failed: {e}")),
+                        },
+                        "connect" => {
+                            let r = if timed { may::net::TcpStream::connect_timeout(&daddr, dt) } else { may::net::TcpStream::connect(daddr) };
+                            match r {
+                                Ok(_) => mayv::ctx().fail("target: connect to a listener that never answers succeeded".into()),
+                                Err(e) if matches!(e.kind(), std::io::ErrorKind::TimedOut | std::io::ErrorKind::WouldBlock) && timed => {}
+                                Err(e) => mayv::ctx().fail(format!("target: connect failed: {e}")),
+                            }
+                        }
                         _ => unreachable!(),
                     }
+                    TROUNDS.fetch_add(1, Ordering::SeqCst);
                     // a call that does not block is not a cancellation point: yield so that the loop always has one
                     may::coroutine::yield_now();
                 }
@@ -188,23 +380,56 @@ fn main() {
         .unwrap();
         // feed the primitive so that everybody can make progress, cancel the target at a random point
         let feeder_sem = sem.clone();
+        let sent = Arc::new(AtomicUsize::new(0));
+        let sent2 = sent.clone();
+        let keep: Arc<std::sync::Mutex<Vec<Box<dyn std::any::Any + Send>>>> = Arc::new(std::sync::Mutex::new(vec![]));
+        let keep2 = keep.clone();
+        let mtx_f = mtx.clone();
         let feeder = ctx.spawn("feeder", move || {
             let c = mayv::ctx();
+            let mut sa = sa;
+            let mut conns = vec![];
             for i in 0..6u32 {
                 c.sleep_ns([0u64, 300_000, 1_000_000][(c.rand() % 3) as usize]);
                 match prim {
                     "sem" => feeder_sem.post(),
                     "chan" => {
-                        let _ = tx.send(i);
+                        if tx.send(i).is_ok() {
+                            sent2.fetch_add(1, Ordering::SeqCst);
+                        }
+                    }
+                    "select" => {
+                        let r = if i % 2 == 0 { tx.send(i) } else { tx2.send(i) };
+                        if r.is_ok() {
+                            sent2.fetch_add(1, Ordering::SeqCst);
+                        }
                     }
                     "mpmc" => {
-                        let _ = mtx.send(i);
+                        if mtx_f.send(i).is_ok() {
+                            sent2.fetch_add(1, Ordering::SeqCst);
+                        }
+                    }
+                    "read" => {
+                        if sa.write(&[i as u8; 4]).is_ok() {
+                            sent2.fetch_add(4, Ordering::SeqCst);
+                        }
+                    }
+                    "accept" => {
+                        if i < 3 {
+                            if let Ok(s) = std::net::TcpStream::connect(laddr) {
+                                sent2.fetch_add(1, Ordering::SeqCst);
+                                conns.push(s);
+                            }
+                        }
                     }
                     _ => {}
                 }
             }
             // keep the senders alive until the end of the closure
             c.sleep_ns(1_000_000);
+            let mut k = keep2.lock().unwrap();
+            k.push(Box::new(sa));
+            k.push(Box::new(conns));
         });
         let when = ctx.rand() % 4;
         while reached.load(Ordering::SeqCst) == 0 {
@@ -214,6 +439,7 @@ fn main() {
         for _ in 0..(ctx.rand() % 40) {
             ctx.point();
         }
+        let rounds_at_cancel = TROUNDS.load(Ordering::SeqCst);
         unsafe { target.coroutine().cancel() };
         match target.join() {
             Ok(()) => ctx.fail("cancelled coroutine finished normally".into()),
@@ -224,6 +450,25 @@ fn main() {
                 }
             }
         }
+        // stop: at most the round that was in flight when the cancel was called completes (its blocking call had
+        // already returned); the next cancellable call ends the coroutine
+        let r1 = TROUNDS.load(Ordering::SeqCst);
+        if r1 > rounds_at_cancel + 1 {
+            ctx.fail(format!("the target completed {} more rounds after cancel() was called", r1 - rounds_at_cancel));
+        }
+        if !closed.load(Ordering::SeqCst) {
+            ctx.fail("the cancelled coroutine did not drop what its closure owned".into());
+        }
+        // the heir: a coroutine spawned now gets the stack of the dead target; nobody cancels it
+        if with_by {
+            let f3 = flag.clone();
+            let h = unsafe { may::coroutine::Builder::new().name("heir".into()).spawn(move || calm_calls("heir", 4, &f3)).unwrap() };
+            joins.push(Box::new(move || {
+                if h.join().is_err() {
+                    mayv::ctx().fail("a coroutine spawned after the cancelled one had died observed a cancellation".into());
+                }
+            }));
+        }
         // others must all finish: whatever raced with the cancel was passed on
         if prim == "sem" {
             for _ in 0..(others as u64 * rounds + 2) {
@@ -231,6 +476,13 @@ fn main() {
             }
         }
         ctx.join(feeder);
+        if prim == "mpmc" {
+            // the messages the target did not take are for the others: top up so that every round finds one
+            let need = others * rounds as usize;
+            for i in 0..need {
+                let _ = mtx.send(100 + i as u32);
+            }
+        }
         for j in joins {
             j();
         }
@@ -250,5 +502,36 @@ fn main() {
         if m != d {
             ctx.fail(format!("{m} stack values were created by the cancelled coroutine but {d} dropped"));
         }
+        if TWICE.load(Ordering::SeqCst) != 0 {
+            ctx.fail("a stack value of the cancelled coroutine was dropped twice".into());
+        }
+        // what was sent to the cancelled receiver was received by it or is still there (mpsc: the Receiver died
+        // with the target, nothing can be read any more, so only the upper bound is checked)
+        let (s, g) = (sent.load(Ordering::SeqCst), TGOT.load(Ordering::SeqCst));
+        match prim {
+            "chan" | "select" | "read" | "accept" => {
+                if g > s {
+                    ctx.fail(format!("the target received {g} but only {s} were sent"));
+                }
+            }
+            "mpmc" => {
+                let og = ogot.load(Ordering::SeqCst);
+                let mut left = 0;
+                while mrx.try_recv().is_ok() {
+                    left += 1;
+                }
+                let total = s + others * rounds as usize;
+                if g + og + left != total {
+                    ctx.fail(format!("mpmc: {total} messages sent, {g} received by the target + {og} by the others + {left} left"));
+                }
+            }
+            _ => {}
+        }
+        if prim == "accept" && std::net::TcpStream::connect(laddr).is_ok() {
+            ctx.fail("accept: the listener of the cancelled coroutine still accepts connections".into());
+        }
+        drop(fill);
+        drop(deadl);
+        drop(keep);
     })
 }
